@@ -168,7 +168,7 @@ type c05job struct {
 
 func TestC05(t *testing.T) {
 	hx.Main(t, "C05", func(r *hx.Run) {
-		r.Rule = "workflow shapes: 1-5 jobs with a random needs DAG (scalar/list form, mixed case; jobs written in random order, so needed jobs may come later in the file), per job 0-5 steps with ids placed at random (ids may coincide up to case across jobs), declared job outputs, a matrix (rows, include-only keys, exclude, or a row / include / whole matrix given by an expression), workflow_call and/or workflow_dispatch inputs, workflow_call secrets (declared / section absent) and outputs. One reference probe per line at positions where the context is available: steps.<id>[.outputs.x|.outcome|.conclusion] in run/env/if/with of steps, in job outputs and environment.url; needs.<job>[.result|.outputs.<n>]; matrix.<key>; inputs.<n>; secrets.<n>; jobs.<job>.outputs.<n>; defined and undefined names, dot and ['x'] form, random case. Oracle: scope model built with the shape. Non-trivial = shape with >= 2 jobs or >= 2 steps and at least one defined and one undefined probe; distinct = YAML text."
+		r.Rule = "workflow shapes: 1-5 jobs with a random needs DAG (scalar/list form, mixed case; jobs written in random order, so needed jobs may come later in the file), per job 0-5 steps with ids placed at random (ids may coincide up to case across jobs), declared job outputs, a matrix (rows, include-only keys, exclude, or a row / include / whole matrix given by an expression), workflow_call and/or workflow_dispatch inputs, workflow_call secrets (declared / section absent) and outputs. One reference probe per line at positions where the context is available: steps.<id>[.outputs.x|.outcome|.conclusion] in run/env/if/with/name/working-directory of steps (run, shell and working-directory in any key order), in job outputs and environment.url; needs.<job>[.result|.outputs.<n>]; matrix.<key>; inputs.<n>; secrets.<n>; jobs.<job>.outputs.<n>; defined and undefined names, dot and ['x'] form, random case. Oracle: scope model built with the shape. Non-trivial = shape with >= 2 jobs or >= 2 steps and at least one defined and one undefined probe; distinct = YAML text."
 		r.Assumptions = []string{"probes are only placed where GitHub's availability table allows the context", "nested matrix value typing and jobs.<id>.result are not asserted", "inputs probes only when at least one input is declared"}
 		r.Check(t, "shapes", hx.N(2500, 60000), func(rt *rapid.T) {
 			c, nj, maxSteps := genC05Shape(rt, nil)
@@ -447,7 +447,7 @@ func genC05Shape(rt *rapid.T, extra func(g *c05gen)) (*c05Case, int, int) {
 				}
 				return y.ln(pre+format, args...)
 			}
-			pos := rapid.SampledFrom([]string{"run", "env", "if", "with", "name"}).Draw(rt, "pos")
+			pos := rapid.SampledFrom([]string{"run", "env", "if", "with", "name", "working-directory"}).Draw(rt, "pos")
 			expr, kind, name, defined := g.stepsProbe(earlier, later, id, "step-"+pos)
 			if g.i("othersctx", 0, 3) == 0 {
 				if e2, k2, n2, d2 := g.jobLevelProbe(jobs, i, inputs, secrets, secretsDeclared, hasCall, autoSecrets); e2 != "" {
@@ -477,6 +477,21 @@ func genC05Shape(rt *rapid.T, extra func(g *c05gen)) (*c05Case, int, int) {
 				item("run: echo")
 				ln := item("name: n ${{ %s }}", g.embed(expr))
 				g.probe(ln, expr, kind, name, defined)
+			case "working-directory":
+				// run / shell / working-directory in any order
+				for _, k := range rapid.Permutation([]string{"run", "shell", "working-directory"}).Draw(rt, "runkeyorder") {
+					switch k {
+					case "run":
+						item("run: echo")
+					case "shell":
+						if g.b("withshell") {
+							item("shell: bash")
+						}
+					default:
+						ln := item("working-directory: ./${{ %s }}", g.embed(expr))
+						g.probe(ln, expr, kind, name, defined)
+					}
+				}
 			default:
 				item("uses: owner/unknown-action@v1")
 				item("with:")
